@@ -90,6 +90,35 @@ def judge_single(case) -> Verdict:
     eff = 16 if limit is None else limit
     v.label(f"k={min(k, 17)}" if k < 17 else "k>16", "hostbits" if base & wild else "masked-base")
     v.nt(k >= 1)
+    via = case.get("via")
+    if via is not None:
+        # the same line given as a string member of an address group that carries the limit
+        from cisco_acl import AddrGroup
+
+        if via not in ("address-group-member", "addrgroup-member"):
+            raise Invalid()
+        v.label(via)
+        try:
+            if via == "address-group-member":
+                grp = Address("object-group G1", items=[line], **kw)
+            else:
+                grp = AddrGroup("object-group ip address G1", items=[line], platform="nxos", **kw)
+        except NetmaskValueError:
+            if k <= eff:
+                v.fail(f"single:{via}:rejected-within-limit", {"line": line, "k": k, "limit": eff})
+            else:
+                v.label("rejected-over-limit")
+            return v
+        if k > eff:
+            v.fail(f"single:{via}:accepted-over-limit", {"line": line, "k": k, "limit": eff,
+                                                         "got": [o.line for o in grp.items]})
+            return v
+        if len(grp.items) != 1:
+            v.fail(f"single:{via}:member-count", {"line": line, "got": [o.line for o in grp.items]})
+            return v
+        if k <= 8:
+            check_expansion(v, grp.items[0].ipnets(), base, wild, f"single:{via}:ipnets")
+        return v
     try:
         wc = Wildcard(line, **kw)
     except NetmaskValueError:
@@ -158,9 +187,13 @@ def enum_limits(tier, shard, nshards):
                             wild |= 1 << (31 - j)
                     if len(R.nc_bits(wild)) != k:
                         continue
-                    if idx % nshards == shard:
-                        yield {"b": R.ip2int("10.170.85.1"), "w": wild, "max": m}
-                    idx += 1
+                    for via in (None, "address-group-member", "addrgroup-member"):
+                        if idx % nshards == shard:
+                            case = {"b": R.ip2int("10.170.85.1"), "w": wild, "max": m}
+                            if via:
+                                case["via"] = via
+                            yield case
+                        idx += 1
 
 
 @st.composite
@@ -176,6 +209,8 @@ def random_single(draw):
     case = {"b": base, "w": wild}
     if draw(st.integers(0, 3)) == 0:
         case["max"] = draw(st.integers(0, 30))
+        if draw(st.integers(0, 2)) == 0:
+            case["via"] = draw(st.sampled_from(["address-group-member", "addrgroup-member"]))
     return case
 
 
@@ -200,7 +235,24 @@ def judge_history(case) -> Verdict:
         _ = obj.ipnets()
         obj.line = f"{R.int2ip(base)} {R.int2ip(wild)}"
     else:
-        obj = _mk(cls, f"{R.int2ip(base)} {R.int2ip(wild)}")
+        kw = {}
+        if case.get("init_max") is not None:
+            # the limit given at construction, through the plain constructor or one of the alternative ones
+            limit = case["init_max"]
+            if not isinstance(limit, int) or not 0 <= limit <= 30 or len(R.nc_bits(wild)) > limit:
+                raise Invalid()
+            kw["max_ncwb"] = limit
+        ctor = case.get("ctor", "line")
+        if ctor == "line":
+            obj = _mk(cls, f"{R.int2ip(base)} {R.int2ip(wild)}", **kw)
+        elif cls == "Wildcard" and ctor in ("fprefix", "fsubnet") and R.is_contiguous(wild):
+            from cisco_acl import Wildcard
+
+            mb, t = base & ~wild & ALL1, R.trailing_ones(wild)
+            obj = Wildcard.fprefix(f"{R.int2ip(mb)}/{32 - t}", **kw) if ctor == "fprefix" else \
+                Wildcard.fsubnet(f"{R.int2ip(mb)} {R.int2ip(~wild & ALL1)}", **kw)
+        else:
+            raise Invalid()
     queried = False
     reassigned_after_query = False
     kinds = set()
@@ -303,6 +355,16 @@ def history(draw):
     case = {"cls": cls, "init": init, "ops": ops}
     if cls == "Address" and draw(st.booleans()):
         case["born_group"] = [draw(small_pair()) for _ in range(draw(st.integers(1, 3)))]
+    elif draw(st.integers(0, 2)) == 0:
+        k0 = len(R.nc_bits(init[1]))
+        case["init_max"] = draw(st.one_of(st.integers(k0, 6), st.integers(k0, 30)))
+        if cls == "Wildcard" and R.is_contiguous(init[1]):
+            case["ctor"] = draw(st.sampled_from(["line", "fprefix", "fsubnet"]))
+        # masks just below / above that limit come next
+        lim = case["init_max"]
+        for kk in (lim + 1, lim):
+            if 1 <= kk <= 8 or (kk > 8 and kk == lim + 1 and kk <= 30):
+                ops.insert(draw(st.integers(0, min(2, len(ops)))), ["set", draw(base_st()), ((1 << kk) - 1) << 1])
     return case
 
 
